@@ -1,14 +1,108 @@
-"""Concrete replay of counterexamples against the real code (scratch copy of /repo + executable oracle)."""
+"""Concrete replay of counterexamples against the real code.
+
+The replay binary (replaykit/) is built against /repo's current working tree (a path dependency; nothing
+is written into /repo) and compares the public API's behaviour with the executable oracle.  It is used to
+(1) search for a concrete failing input once a proof obligation failed, (2) re-run recorded inputs,
+(3) re-run the witnesses of known findings, (4) optional cross-validation in the thorough tier.
+It never decides that a property holds.
+"""
+import json
+import os
+import shutil
+import subprocess
+
+HERE = os.path.dirname(os.path.abspath(__file__))
+VERIF = os.path.dirname(HERE)
+
+_built = {}
+
+
+def build(repo, work):
+    """returns path of the replay binary (or raises RuntimeError with the compiler output)"""
+    key = os.path.abspath(repo)
+    if key in _built:
+        return _built[key]
+    crate = os.path.join(work, "replaykit")
+    if os.path.exists(crate):
+        shutil.rmtree(crate)
+    shutil.copytree(os.path.join(VERIF, "replaykit"), crate)
+    toml = open(os.path.join(crate, "Cargo.toml.in")).read().replace("@REPO@", key)
+    open(os.path.join(crate, "Cargo.toml"), "w").write(toml)
+    cache = os.environ.get("VERIF_CACHE") or "/var/tmp/tzrs-verif-cache"
+    target = os.path.join(cache, "replay-target")
+    os.makedirs(target, exist_ok=True)
+    env = dict(os.environ, CARGO_TARGET_DIR=target, CARGO_NET_OFFLINE="true")
+    env.pop("RUSTFLAGS", None)
+    p = subprocess.run(["cargo", "build", "--release", "--offline", "-q"], cwd=crate, env=env, capture_output=True, text=True, timeout=900)
+    if p.returncode != 0:
+        raise RuntimeError("replay binary does not build against this tree:\n" + p.stderr[-3000:])
+    exe = os.path.join(work, "tzrs-replay")
+    shutil.copy(os.path.join(target, "release", "tzrs-replay"), exe)
+    _built[key] = exe
+    return exe
+
+
+def _run(exe, args, timeout=600):
+    p = subprocess.run([exe] + args, capture_output=True, text=True, timeout=timeout)
+    out = p.stdout.strip().split("\n")[-1] if p.stdout.strip() else ""
+    try:
+        return json.loads(out), p.returncode
+    except Exception:
+        return {"error": "unparsable replay output: %r / %r" % (p.stdout[-300:], p.stderr[-300:])}, p.returncode
+
+
+def probe(repo, work, target, seed, budget):
+    try:
+        exe = build(repo, work)
+    except Exception as e:
+        return {"error": str(e)}
+    r, _ = _run(exe, ["probe", target, str(seed), str(budget)])
+    return r
 
 
 def run_witness(repo, work, finding):
-    return {"error": "replay binary not built yet"}
+    """finding: {probe, inputs:[ints]}"""
+    try:
+        exe = build(repo, work)
+    except Exception as e:
+        return {"error": str(e)}
+    r, rc = _run(exe, ["run", finding["witness"]["probe"], ",".join(str(x) for x in finding["witness"]["inputs"])])
+    return r
 
 
 def search_counterexample(repo, work, pid, failure, seed):
-    return {"found": False, "note": "no probe set"}
+    """public-API observation of the property whose obligation failed"""
+    r = probe(repo, work, pid, seed, int(os.environ.get("VERIF_CEX_BUDGET", "20000")))
+    if r.get("error"):
+        return {"found": False, "note": r["error"][:400]}
+    if r.get("found"):
+        return dict(found=True, probe=r["probe"], inputs=r["inputs"], expected=r["expected"], actual=r["actual"])
+    return {"found": False, "note": "%d probe inputs evaluated, none differs from the oracle" % r.get("evaluations", 0)}
 
 
 def replay_file(repo, work, path):
-    print("replay not implemented yet")
-    return 2
+    doc = json.load(open(path))
+    print("property   : %s" % doc.get("property"))
+    print("obligation : %s" % doc.get("obligation"))
+    if not doc.get("inputs"):
+        print("no concrete input recorded (no-failing-input-found); verifier output follows")
+        print(doc.get("verus_diagnostic") or doc.get("kani_output") or "")
+        return 1
+    try:
+        exe = build(repo, work)
+    except Exception as e:
+        print(str(e))
+        return 2
+    r, rc = _run(exe, ["run", doc["probe"], ",".join(str(x) for x in doc["inputs"])])
+    print("probe      : %s" % doc["probe"])
+    print("inputs     : %s" % doc["inputs"])
+    if r.get("reproduced"):
+        print("expected   : %s" % r["expected"])
+        print("actual     : %s" % r["actual"])
+        print("REPRODUCED on the current tree")
+        return 1
+    if r.get("error"):
+        print(r["error"])
+        return 2
+    print("not reproduced on the current tree (code and oracle agree on this input)")
+    return 0
